@@ -240,7 +240,11 @@ func freshVal(t types.Type, name string, facts *[]*Term) Val {
 		}
 		return &Agg{F: []Val{arr, off, ln, cp}}
 	case kIface:
-		return &Agg{F: []Val{Fresh(name+".tag", SInt), Fresh(name+".pl", SPtr)}}
+		tag, pl := Fresh(name+".tag", SInt), Fresh(name+".pl", SPtr)
+		if facts != nil {
+			*facts = append(*facts, Ge(tag, IntT(0)), Implies(Eq(tag, IntT(0)), Eq(pl, Null())))
+		}
+		return &Agg{F: []Val{tag, pl}}
 	case kTuple:
 		tu := t.(*types.Tuple)
 		a := &Agg{}
@@ -535,7 +539,7 @@ func (h *Heap) load(p *Term, t types.Type, facts *[]*Term) Val {
 		st := t.Underlying().(*types.Struct)
 		a := &Agg{}
 		for i := 0; i < st.NumFields(); i++ {
-			a.F = append(a.F, h.load(Fld(p, i), st.Field(i).Type(), facts))
+			a.F = append(a.F, h.load(Fld(p, fieldID(st, i)), st.Field(i).Type(), facts))
 		}
 		return a
 	case kArray:
@@ -547,13 +551,13 @@ func (h *Heap) load(p *Term, t types.Type, facts *[]*Term) Val {
 		}
 		return a
 	case kSlice:
-		arr, off, ln, cp := h.loadLeaf(Fld(p, 0), SPtr), h.loadLeaf(Fld(p, 1), SInt), h.loadLeaf(Fld(p, 2), SInt), h.loadLeaf(Fld(p, 3), SInt)
+		arr, off, ln, cp := h.loadLeaf(Fld(p, 1), SPtr), h.loadLeaf(Fld(p, 2), SInt), h.loadLeaf(Fld(p, 3), SInt), h.loadLeaf(Fld(p, 4), SInt)
 		if facts != nil && !arr.hasBound && !off.hasBound {
 			*facts = append(*facts, sliceInv(arr, off, ln, cp))
 		}
 		return &Agg{F: []Val{arr, off, ln, cp}}
 	case kIface:
-		return &Agg{F: []Val{h.loadLeaf(Fld(p, 0), SInt), h.loadLeaf(Fld(p, 1), SPtr)}}
+		return &Agg{F: []Val{h.loadLeaf(Fld(p, 5), SInt), h.loadLeaf(Fld(p, 6), SPtr)}}
 	}
 	unsupp("heap load of %s", t)
 	return nil
@@ -575,7 +579,7 @@ func (h *Heap) store(p *Term, t types.Type, v Val) {
 		st := t.Underlying().(*types.Struct)
 		a := v.(*Agg)
 		for i := 0; i < st.NumFields(); i++ {
-			h.store(Fld(p, i), st.Field(i).Type(), a.F[i])
+			h.store(Fld(p, fieldID(st, i)), st.Field(i).Type(), a.F[i])
 		}
 		return
 	case kArray:
@@ -589,13 +593,13 @@ func (h *Heap) store(p *Term, t types.Type, v Val) {
 	case kSlice:
 		a := v.(*Agg)
 		for i := 0; i < 4; i++ {
-			h.storeLeaf(Fld(p, i), a.F[i].(*Term))
+			h.storeLeaf(Fld(p, i+1), a.F[i].(*Term))
 		}
 		return
 	case kIface:
 		a := v.(*Agg)
-		h.storeLeaf(Fld(p, 0), a.F[0].(*Term))
-		h.storeLeaf(Fld(p, 1), a.F[1].(*Term))
+		h.storeLeaf(Fld(p, 5), a.F[0].(*Term))
+		h.storeLeaf(Fld(p, 6), a.F[1].(*Term))
 		return
 	}
 	unsupp("heap store of %s", t)
@@ -790,4 +794,20 @@ func tokenCmp(op token.Token, a, b *Term) *Term {
 		return Ge(a, b)
 	}
 	panic("tokenCmp")
+}
+
+
+// fieldID gives every (struct type, field) pair its own fld() index, so that fields of different
+// struct types never alias (Burstall-Bornat style separation inside one heap array per leaf sort).
+// Ids 1..6 are reserved for slice headers and interface words.
+var fieldIDs = map[string]int{}
+
+func fieldID(st *types.Struct, i int) int {
+	k := fmt.Sprintf("%s#%d", types.TypeString(st, nil), i)
+	if id, ok := fieldIDs[k]; ok {
+		return id
+	}
+	id := 100 + len(fieldIDs)
+	fieldIDs[k] = id
+	return id
 }
